@@ -103,6 +103,33 @@ Theorem C12_remote_delete_applies : forall s h, d_lookup (dnext s (DRemoteDel h)
 Proof. exact remote_del_applies. Qed.
 Print Assumptions C12_remote_delete_applies.
 
+(* store keys and subscriber ids: every id — any bytes: '/', "..", empty segments, ids that are suffixes
+   of each other, the key prefix itself — is recovered from its key exactly as handleRemoteChange
+   recovers it (key[len(prefix):]); so an event delivered under a subscriber's key acts on that subscriber
+   and, for deletes, on no other *)
+Theorem C12_id_key_roundtrip : forall pool id, id_of_key pool (key_of_id pool id) = Some id.
+Proof. exact id_of_key_of_id. Qed.
+Print Assumptions C12_id_key_roundtrip.
+
+Theorem C12_key_of_id_injective : forall pool id1 id2, key_of_id pool id1 = key_of_id pool id2 -> id1 = id2.
+Proof. exact key_of_id_inj. Qed.
+Print Assumptions C12_key_of_id_injective.
+
+Theorem C12_wire_remote_delete_applies : forall w s id h, intern (w_names w) id = Some h ->
+  d_lookup (wnext w s (WRemoteDel (key_of_id (w_pool w) id))) h = None.
+Proof. exact wire_remote_del_applies. Qed.
+Print Assumptions C12_wire_remote_delete_applies.
+
+Theorem C12_wire_remote_delete_touches_no_other : forall w s id h h', intern (w_names w) id = Some h -> h' <> h ->
+  d_lease s = false -> d_lookup (wnext w s (WRemoteDel (key_of_id (w_pool w) id))) h' = d_lookup s h'.
+Proof. exact wire_remote_del_others. Qed.
+Print Assumptions C12_wire_remote_delete_touches_no_other.
+
+Theorem C12_wire_remote_put_is_remote_put : forall w s id h a pl ep, intern (w_names w) id = Some h ->
+  wnext w s (WRemotePut (key_of_id (w_pool w) id) id a pl ep) = dnext s (DRemotePut h a pl ep).
+Proof. exact wire_remote_put. Qed.
+Print Assumptions C12_wire_remote_put_is_remote_put.
+
 (* ---------- lease mode: refuted + partial (known findings K12a, K12b) ---------- *)
 (* loadAllocations re-Allocates every stored subscriber in enumeration order: the stored address is
    not used (marker 1201) *)
@@ -135,12 +162,16 @@ Proof. exact remote_put_lease_partial. Qed.
 Print Assumptions C12_remote_put_applies_announced_lease_partial.
 
 (* ---------- (4) serialise then restore: every query answered identically ---------- *)
-(* IPAllocator: every history (incl. reload via SetAllocation), every geometry, every query.
-   indexToSubscriber is rebuilt and allocatedCount recomputed: both need the invariant of reachable
-   states (the maps are mutually inverse, the count is exact — C05's stats_exact) *)
-Theorem C12_marshal_roundtrip_bitmap : forall g ops q,
+(* IPAllocator: both address families ([fam_ok]: 32- or 128-bit, what net.ParseCIDR produces), every
+   geometry, every history (incl. reload via SetAllocation), every query with its full result (prefix
+   address AND mask length AND mask width, IsIPv6, PrefixLength, ListAllocations, Stats).  The family
+   flag is a field of the marshalled record; indexToSubscriber is rebuilt and allocatedCount recomputed:
+   both need the invariant of reachable states (maps mutually inverse, count exact — C05's stats_exact) *)
+Theorem C12_marshal_roundtrip_bitmap : forall g ops q, fam_ok g ->
   b_query (b_unmarshal (b_marshal (brun g ops))) q = b_query (brun g ops) q.
-Proof. intros g ops q. apply marshal_roundtrip_bitmap. apply brun_inv. Qed.
+Proof.
+  intros g ops q Hf. apply marshal_roundtrip_bitmap; [rewrite brun_geo; exact Hf|apply brun_inv].
+Qed.
 Print Assumptions C12_marshal_roundtrip_bitmap.
 
 (* EpochBitmapAllocator (after fix 36dc5fb): every history over every IPv4 geometry net.ParseCIDR can
@@ -190,6 +221,22 @@ Proof. repeat split; vm_compute; reflexivity. Qed.
 Example C12_bitmap_roundtrip_nonvacuous :
   let g := {| g_bits := 32; g_base := 167772160; g_ppl := 30; g_pl := 32 |} in
   let s := brun g [Alloc 1; Alloc 2; Alloc 3; Release 2; SetAlloc 4 167772163 32] in
-  b_query s (QLookupUnit 167772163 32) = OHolder 4 /\ b_hint s <> b_hint (b_unmarshal (b_marshal s)) /\
-  b_query (b_unmarshal (b_marshal s)) (QLookupUnit 167772163 32) = OHolder 4.
+  b_query s (QLookupUnit 167772163 32) = BOut (OHolder 4) /\ b_hint s <> b_hint (b_unmarshal (b_marshal s)) /\
+  b_query (b_unmarshal (b_marshal s)) (QLookupUnit 167772163 32) = BOut (OHolder 4).
 Proof. cbv zeta. repeat split; vm_compute; try reflexivity; discriminate. Qed.
+
+(* an IPv6 prefix-delegation pool (/56 out of 2001:db8::/52): the restored allocator still answers with
+   128-bit masks and IsIPv6 *)
+Example C12_bitmap_roundtrip_v6 :
+  let g := {| g_bits := 128; g_base := 42540766411282592856903984951653826560; g_ppl := 52; g_pl := 56 |} in
+  let s := b_unmarshal (b_marshal (brun g [Alloc 1; Alloc 2])) in
+  fam_ok g /\ b_query s QIsV6 = BFlag true /\
+  b_query s (QLookup 2) = BPfx (42540766411282592856903984951653826560 + 2 ^ 72) 56 128.
+Proof. cbv zeta. split; [right; reflexivity|]. split; vm_compute; reflexivity. Qed.
+
+(* ids that are suffixes of one another are kept apart *)
+Example C12_wire_ids_nonvacuous :
+  let w := {| w_pool := [112]; w_names := [(0, [97; 47; 98]); (1, [98]); (2, [47; 97; 108; 108; 111; 99; 97; 116; 105; 111; 110; 47; 112; 47])] |} in
+  holder_of_key w (key_of_id [112] [97; 47; 98]) = Some 0 /\ holder_of_key w (key_of_id [112] [98]) = Some 1 /\
+  holder_of_key w (key_of_id [112] (key_prefix [112])) = Some 2.
+Proof. cbv zeta. repeat split; vm_compute; reflexivity. Qed.
